@@ -33,6 +33,12 @@ let () =
                 | _ -> failwith "cert") (String.split_on_char ',' spec) in
             let ms = List.map (fun m -> bytes_of (m ^ ".dll")) (String.split_on_char ',' mods) in
             "E " ^ String.concat "," (List.map (fun o -> match o with None -> "-" | Some c -> str_of c) (run_certs certs ms))
+          | "B" :: regs :: _ ->
+            (* B rcx,rdx,rcx | <dump spec>: the registers of the crashing instruction's memory operand in operand order *)
+            let bytes_of (t : string) : z list = List.init (String.length t) (fun i -> z_of_int (Char.code t.[i])) in
+            let str_of (l : z list) : string = String.concat "" (List.map (fun b -> String.make 1 (Char.chr (int_of_z b))) l) in
+            let r = run_bitflip_sources (List.map bytes_of (String.split_on_char ',' regs)) in
+            "B " ^ (if r = [] then "none" else String.concat "," (List.map str_of r))
           | "U" :: addrs :: rest ->
             (* U a1,a2 base:size:namehex;...   -> per address the (name, offsets) entries, once for the JSON and once for the text report *)
             let mods = match rest with
